@@ -1,4 +1,4 @@
-(* C14 — The next decision is always for a package of maximal reported priority (model side, stage 1).
+(* C14 — The next decision is always for a package of maximal reported priority (model side).
 
    The model's decision log has one entry (cands, q, n) per decision point: cands = the packages with a
    positive term and no decision (with their current set), q = the priority queue after the prioritize calls
@@ -7,13 +7,20 @@
    That the package asked about has a maximal priority in q is checked by the model on every replayed run
    (outcome OPickNotMax otherwise): which maximal element the Rust PriorityQueue pops is not modelled.
 
-   Proved here, for ANY trace and fuel (structural invariant of the `changed`-index bookkeeping of
-   partial_solution.rs, Proofs/SolverQueue.v): at every decision point every undecided positive package is
-   queued with a priority that was reported for its CURRENT set, except possibly packages that were
-   themselves picked at an earlier decision point.  (The exception is removed by the semantic argument that
-   every non-deciding continuation re-queues the picked package: stage 2.) *)
+   Proved here for every lawful VersionSet, ANY fuel and ANY trace whose dependency answers carry well-formed
+   sets (in particular every trace that agrees with a well-formed registry):
+   - [undecided_positive_reported] (second clause of the property, in full): at every decision point every
+     undecided package with a positive term is queued, its queue entry was reported for its CURRENT set, and
+     that entry is the LAST prioritize call for the package before the decision (Proofs/SolverQueue.v:
+     structural invariant of the `changed`-index bookkeeping; Proofs/SolverQueue2.v: every non-deciding
+     continuation re-queues the picked package, which needs the laws of the VersionSet);
+   - [chosen_package_is_maximal] (first clause): the package of the choose_version call the model accepts at
+     a decision point has a queue entry for exactly the offered set whose priority is the maximum of the
+     queue, and [queue_max_is_upper_bound] every queued priority is below it.
+   - [queue_covers_undecided_partial]: the purely structural part, for any trace at all. *)
 From Coq Require Import List NArith Bool.
-From PG Require Import Model.VS Model.Term Model.Solver Proofs.SolverQueue.
+From Coq Require Import ZArith.
+From PG Require Import Model.VS Model.Term Model.Solver Model.Registry Proofs.VSLaws Proofs.SolverSem Proofs.SolverQueue Proofs.SolverQueue2.
 From Coq Require Import ZArith.
 From PG Require Import Model.Instances Proofs.SolverExamples.
 Import ListNotations.
@@ -52,6 +59,35 @@ Section C14.
   Qed.
 End C14.
 
+Section C14_semantic.
+  Context {VS Vr : Type} (O : VSOps VS Vr) (L : VSLawful O) (veqb : Vr -> Vr -> bool).
+  Notation event := (event (VS := VS) (Vr := Vr)).
+
+  Theorem undecided_positive_reported :
+    forall fuel r v (tr : list event) o st' log cnt k cands q n2 x s,
+      trace_wf O L tr -> resolve O veqb fuel r v tr = (o, st', log, cnt) ->
+      nth_error log k = Some (cands, q, n2) -> In (x, s) cands ->
+      exists z, get x q = Some (z, s) /\ last_prio_at tr n2 x s z.
+  Proof. exact (resolve_fresh_reported O L veqb). Qed.
+
+  Theorem chosen_package_is_maximal :
+    forall fuel r v (tr : list event) o st' log cnt k cands q n2 p s a,
+      trace_wf O L tr -> resolve O veqb fuel r v tr = (o, st', log, cnt) ->
+      nth_error log k = Some (cands, q, n2) -> n2 < cnt -> nth_error tr n2 = Some (EvChoose p s a) ->
+      exists z, get p q = Some (z, s) /\ queue_max q = Some z.
+  Proof. exact (resolve_choose_max O L veqb). Qed.
+
+  Theorem queue_max_is_upper_bound :
+    forall (q : list (pkg * (Z * VS))) mx x z s, queue_max q = Some mx -> get x q = Some (z, s) -> (z <= mx)%Z.
+  Proof. exact (queue_max_ge (VS := VS)). Qed.
+
+  (* traces that agree with a registry whose dependency sets are well formed satisfy [trace_wf] *)
+  Theorem wellbehaved_traces_are_wf :
+    forall (reg : registry (VS := VS) (Vr := Vr)) (tr : list event),
+      reg_wf O L reg -> WellBehaved O reg tr -> trace_wf O L tr.
+  Proof. exact (wellbehaved_trace_wf O L). Qed.
+End C14_semantic.
+
 (* non-vacuity: a recorded run over Range<Z> with a conflict and a backtrack has 4 decision points; at the
    third, package 1 is undecided with the positive set "not 2" and is queued for exactly that set *)
 Example queue_covers_nonvacuous :
@@ -63,3 +99,7 @@ Proof. vm_compute. do 7 eexists. repeat split; try reflexivity. now left. Qed.
 Print Assumptions queue_covers_undecided_partial.
 Print Assumptions queue_covers_undecided_first.
 Print Assumptions candidates_are_undecided_positive.
+Print Assumptions undecided_positive_reported.
+Print Assumptions chosen_package_is_maximal.
+Print Assumptions queue_max_is_upper_bound.
+Print Assumptions wellbehaved_traces_are_wf.
